@@ -204,7 +204,9 @@ def coq_make(targets, timeout=3000):
     (ok, output)."""
     with CoqLock():
         _ensure_makefile()
-        cmd = ["timeout", str(timeout), "make", "-f", "Makefile.coq", "-j%d" % NCPU] + list(targets)
+        # -k: keep going, so that a Tie target (the Spec oracle) is still built when a proof
+        # over a regenerated kernel fails; the failure is still reported through the exit status
+        cmd = ["timeout", str(timeout), "make", "-k", "-f", "Makefile.coq", "-j%d" % NCPU] + [t for t in targets if t != "-k"]
         p = subprocess.run(cmd, cwd=COQ, capture_output=True, text=True)
         return p.returncode == 0, (p.stdout[-6000:] + "\n" + p.stderr[-6000:])
 
